@@ -232,10 +232,17 @@ pub open spec fn cache_inv(c: LruShim, m: RevMap, objs: Objs) -> bool {
 pub open spec fn submitted(obj: JObj) -> Seq<Value> {
     match obj_desc(obj) { Some(DescV::Full(n)) => n, _ => Seq::empty() }
 }
-/// o is a non-empty edit script which turns `base` into exactly `target`
+/// o is an edit script which turns `base` into exactly `target`
 pub open spec fn delta_of(o: JObj, base: Seq<Value>, target: Seq<Value>) -> bool {
     match obj_desc(o) {
-        Some(DescV::Diff(p)) => p.len() > 0 && is_patch_of(p, base, target) && ops_ok(base, p, 0) && apply_ops(base, p, 0) == target,
+        Some(DescV::Diff(p)) => is_patch_of(p, base, target) && ops_ok(base, p, 0) && apply_ops(base, p, 0) == target,
+        _ => false,
+    }
+}
+/// the edit script stored in o is not empty
+pub open spec fn script_nonempty(o: JObj) -> bool {
+    match obj_desc(o) {
+        Some(DescV::Diff(p)) => p.len() > 0,
         _ => false,
     }
 }
